@@ -338,12 +338,21 @@ func runC03(r *engine.Run) {
 				got, _ := foptsOf(p)
 				if err == nil && bytes.Equal(got, f.FOpts) {
 					c.Fail("method/fopts/encrypt-nil-without-transform", fmt.Sprintf("EncryptFOpts returned nil on %d bytes of FOpts and left them untransformed", len(f.FOpts)), nil)
+				} else if err == nil && len(got) != len(f.FOpts) {
+					c.Fail("method/fopts/length-not-preserved", fmt.Sprintf("EncryptFOpts returned nil on %d bytes of FOpts and left %d bytes (%x)", len(f.FOpts), len(got), got), nil)
 				}
 				q := build()
 				derr := q.DecryptFOpts(keyOf(key))
 				got2, ok2 := foptsOf(q)
 				if derr == nil && ok2 && bytes.Equal(got2, f.FOpts) {
 					c.Fail("method/fopts/decrypt-nil-without-transform", fmt.Sprintf("DecryptFOpts returned nil on %d bytes of FOpts and left them untransformed", len(f.FOpts)), nil)
+				}
+				if derr == nil {
+					// a nil DecryptFOpts has decoded the FOpts into commands: together they must
+					// re-encode to as many bytes as went in
+					if b, err := q.MACPayload.(*lorawan.MACPayload).FHDR.MarshalBinary(); err == nil && len(b) != 7+len(f.FOpts) {
+						c.Fail("method/fopts/length-not-preserved", fmt.Sprintf("DecryptFOpts returned nil on %d bytes of FOpts; the header now carries %d", len(f.FOpts), len(b)-7), nil)
+					}
 				}
 				c.Outcome("method/fopts/overlong")
 			} else if err != nil {
